@@ -32,7 +32,10 @@ chk("C01", "exploration", "systematic token mutation + independent reference ver
     "route, 23 mutation classes are applied (every character of header/payload, every single bit of HMAC/ECDSA/EdDSA signatures, "
     "sampled bits of RSA signatures, truncation/extension, padding, transplants from other payload/key/key type, sibling "
     "algorithms, ECDSA corner values and re-encodings, constant signatures, extra segments, control bytes, HMAC under "
-    "attacker-computable keys); the monitor asserts accepted => reference-valid and requires every unmutated token to verify.",
+    "attacker-computable keys; extensions by 63..65537 characters/bytes around powers of two); every mutant is verified under both "
+    "providers; key-rotation histories (verify, free the keyring, load another key at the same address, verify again) run on the "
+    "ASan and on a plain build; the monitor asserts accepted => reference-valid and requires every unmutated token to verify, "
+    "also after all mutants of its case.",
     "Trusted: OpenSSL primitives called directly; lenient reference decoding makes the check one-directional. Forgeries that need "
     "to break the primitive are out of reach. One open known finding (Ed448 last byte on GnuTLS, root cause in nettle).",
     "DESIGN.md 3/C01")
@@ -65,7 +68,8 @@ chk("C15", "exploration", "bounded-exhaustive operation sequences + type-strict 
     "All sequences up to length 3 (quick) / 4 (thorough) over a 39-operation alphabet and 2e4 / 5e5 random sequences to length 40 "
     "with boundary values are executed on builder headers, builder claims and on the jwt_t handed to builder and checker "
     "callbacks; every operation's return code, value.error, returned value and a dump of the whole object are compared with a "
-    "Python dict model of the statement.",
+    "Python dict model of the statement; the builder's own maps are dumped before and after a generate whose callback edits the "
+    "token and must be identical.",
     "Trusted: Python json for reading the dumps; unjudged operations (statement silent) are only required not to change the "
     "object.", "DESIGN.md 3/C15")
 chk("C16", "exploration", "bounded-exhaustive operation sequences + Python list model over logged state dumps, under ASan/UBSan/LSan",
@@ -82,11 +86,13 @@ chk("C10", "exploration", "history replay against a Python builder model (own ba
     "equal to the model, signatures are re-verified (OpenSSL reference, Python hmac).",
     "Trusted: Python base64/json/hmac; OpenSSL reference verifier in the driver.", "DESIGN.md 3/C10")
 chk("C13", "exploration", "differential monitoring: reused object vs fresh identically configured twin at the same clock, under ASan/UBSan",
-    "Every ordered pair of a 27-member token pool (one member per failure layer, plus valid tokens) x 4 checker configurations x "
-    "with/without error_clear x provider, every ordered pair of 5 builder actions x 5 builder configurations, and 6e3 / 3e5 "
+    "Every ordered pair of a 33-member token pool (one member per failure layer, plus valid tokens) x 5 checker configurations x "
+    "with/without error_clear x provider, every ordered pair of 6 builder actions x 5 builder configurations, and 6e3 / 3e5 "
     "random histories up to length 20; each step's return value, error flag, message (after clear) and token (bytes for "
-    "deterministic algs; header+payload and reference verification for ES256/PS256) are compared with a fresh twin's.",
-    "The fresh twin is the oracle (defects shared by fresh objects are other properties' business).", "DESIGN.md 3/C13")
+    "deterministic algs; header+payload and reference verification for ES256/PS256) are compared with a fresh twin's and, for "
+    "verify, with the pristine verdict of the same (provider, configuration, token) taken at process start before any failing "
+    "verification (catches process-wide hidden state a fresh twin shares).",
+    "Oracles: fresh twin + pristine verdict (defects present from the first call on are other properties' business).", "DESIGN.md 3/C13")
 chk("C14", "exploration", "contract monitor over four logged workloads (histories, policy matrix, JWK fault matrix, typed-map sequences) under ASan/UBSan",
     "The error contract (non-zero/NULL <=> flag set and message non-empty; success => flag clear and message empty; bad item "
     "=> message; return code == value.error) is asserted on every call of the reused/fresh history driver, the policy matrix, "
@@ -118,8 +124,8 @@ chk("C19", "exploration", "exhaustive callback-program enumeration + differentia
     "Every callback program up to length 2 (quick: 343 programs) / 3 (thorough: 6175) over 18 edits of the handed jwt_t is run "
     "against 32 claim policies x 17 tokens (each passing or failing exactly one check or the signature; HS256, ES256, unsigned) "
     "x 2 providers at a fixed clock and the verdict compared with the same checker without callback; every 7th program also "
-    "returns non-zero values and must fail; 1.2e5 policy-matrix cells with a callback-selected key/alg are compared with the "
-    "same pair configured through setkey.",
+    "returns non-zero values and must fail; 2.6e5 policy-matrix cells where the callback selects key+alg, the key only or the alg "
+    "only are compared with the same effective pair configured through setkey.",
     "The callback-free twin and the setkey route are the oracles.", "DESIGN.md 3/C19")
 chk("C17", "fault_enumeration", "exhaustive single-allocation-failure injection through jwt_set_alloc + differential against the fault-free run, under ASan/UBSan",
     "For each of 53 (quick) / 85 (thorough) scenarios (load every key type alone, public, in a set with a bad element, by strn; "
@@ -141,9 +147,9 @@ chk("C18", "exploration", "ThreadSanitizer stress with injected scheduling delay
     "Schedules are sampled. Races inside uninstrumented libraries are invisible. Helgrind not used (cost, noise).", "DESIGN.md 3/C18")
 chk("C20", "exploration", "black-box monitoring of the ASan-built tools (exit status, stdout) + OpenSSL-direct key comparison helper",
     "~1e3 (quick) / ~3e3 (thorough) tool invocations: jwt-verify over token lists of length 1..1024 with 0..n failing tokens at "
-    "random positions, as arguments and on stdin, tokens up to 64 KiB; jwt-generate -> jwt-verify for every key type with every "
+    "random positions, as arguments and on stdin (incl. an unterminated last line), tokens up to 64 KiB; jwt-generate -> jwt-verify for every key type with every "
     "documented spelling of the options (cross-checked against each tool's --help); key2jwk -> library import -> jwk2key -> "
-    "component-wise comparison for fresh keys of every type, EC keys generated until leading-zero coordinates and scalars "
-    "occurred (counted in the evidence); RFC 7518 member encodings checked by Python.",
+    "component-wise comparison for fresh keys of every type (oct keys with trailing NL/CR/NUL/space, leading NL, embedded NUL), EC keys "
+    "generated until leading-zero coordinates and scalars occurred (counted in the evidence); RFC 7518 member encodings checked by Python.",
     "Trusted: OpenSSL key accessors in drivers/d_c20.c; --print pipelines and Windows paths not exercised; blank lines/CRLF on "
     "stdin unjudged.", "DESIGN.md 3/C20")
